@@ -529,6 +529,19 @@ def rule_scope(ctx) -> None:
                   f"{name} mutates graph state: `{src(bad[0])[:50]}`" if bad else "")
 
 
+def rule_no_module_state(ctx) -> None:
+    """every GEL entry point re-reads the live configuration and keeps its state in state.graph only: no function of gel.py
+    (or of the hybrid reranker that reads the same store) writes module-level state.  A memoised config view makes the gate,
+    the clamps and the caps of a later call those of an earlier one."""
+    from ..util import module_state_writes
+    for mn in (GEL, "clematis.engine.stages.hybrid"):
+        ws = module_state_writes(ctx, mn)
+        ctx.analysed_modules.add(mn)
+        ctx.check(not ws, "C18.GATE", f"{mn}/no-module-state", ctx.prog.module(mn).rel if not ws else ws[0][0].loc(ws[0][1]),
+                  "no function of the module writes module-level state (configuration and gate are read afresh on every call)",
+                  (f"`{ws[0][0].name}` {ws[0][3]} the module-level `{ws[0][2]}`: a later call can act on the configuration (gate, clamp bounds, caps) or data of an earlier call" if ws else ""))
+
+
 def rule_gate(ctx) -> None:
     m = ctx.prog.module(GEL)
     n_sites = 0
@@ -569,3 +582,4 @@ def run(ctx) -> None:
     rule_orderins(ctx)
     rule_scope(ctx)
     rule_gate(ctx)
+    rule_no_module_state(ctx)
